@@ -134,7 +134,7 @@ def labels(mol2_safe=False):
         return st.one_of(st.none(), st.just(""), st.text("ABCDEFGHIJKLMNOPQRSTUVWXYZabcxyz0123456789_*'+-#@<>.,:;!?()[]{}/\\|=%&$~^\"", min_size=1, max_size=6),
                          st.sampled_from(["H#1", "#", "C@", "@<TRIPOS>ATOM", "1", "0.5", "nan",
                                           # tokens that mean something elsewhere in the format
-                                          "****", "***", "<0>", "<1>", "SMALL", "NO_CHARGES", "USER_CHARGES", "Du", "LP", "Any", "@<TRIPOS>BOND", "None"]))
+                                          "****", "***", "<0>", "<1>", "SMALL", "NO_CHARGES", "USER_CHARGES", "Du", "LP", "Any", "@<TRIPOS>BOND", "None", "Cα", "Å1"]))
     return st.one_of(st.none(), st.just(""), st.text(max_size=6), st.sampled_from(["C1", "H 2", "α"]))
 
 
@@ -177,7 +177,7 @@ def names(mol2_safe=False):
     if mol2_safe:
         return st.one_of(
             st.text("ABCDEFGHIJKLMNOPQRSTUVWXYZabcdefghijklmnopqrstuvwxyz0123456789_-+.()[] #@<>,:;!?{}/\\|=%&$~^'\"*", min_size=1, max_size=12).map(str.strip).filter(lambda s: len(s) > 0),
-            st.sampled_from(["ligand #7 (batch A)", "#1", "# Produced", "@<TRIPOS>MOLECULE", "@<TRIPOS>ATOM", "****", "12 3", "a  b"]),
+            st.sampled_from(["ligand #7 (batch A)", "#1", "# Produced", "@<TRIPOS>MOLECULE", "@<TRIPOS>ATOM", "****", "12 3", "a  b", "α_pinene_2Å", "naïve-é", "名前"]),
         )
     return st.one_of(st.none(), st.just(""), st.text(max_size=10), st.sampled_from(["mol", "a b", "x_1"]))
 
